@@ -101,10 +101,29 @@ fn one_stream(ctx: &Ctx, acc: &mut Acc, l: L, lang: &text2num::Language, syms: &
     }
 }
 
+/// Streams given as ready-made harness tokens (hinted tokens, or the real tokens of a text with the
+/// language's own annotation): thresholds 0 and 10, both search entry points.
+fn one_token_list(ctx: &Ctx, acc: &mut Acc, l: L, lang: &text2num::Language, toks: &[HTok]) {
+    acc.states += 1;
+    for t in [0.0, 10.0] {
+        acc.transitions += 2 * toks.len() as u64;
+        if let Ok((a, b)) = guard(|| (stream::find(toks, lang, t), stream::find_iter(toks, lang, t))) {
+            if t == 0.0 && !a.is_empty() {
+                acc.nontrivial += 1;
+            }
+            check_occs(ctx, acc, l, toks, &a, t, "find_tokens");
+            if a != b {
+                check_occs(ctx, acc, l, toks, &b, t, "find_tokens_iter");
+            }
+        }
+    }
+}
+
 pub fn run(tier: Tier) -> i32 {
     let ctx = Ctx::new("C06", tier);
     let (kf, kc, kdeep) = tier.pick((2usize, 4usize, 0usize), (3, 5, 6));
-    let rmax = tier.pick(60usize, 600usize);
+    let rmax = tier.pick(60usize, 300usize);
+    let (kh, kt) = tier.pick((3usize, 4usize), (4, 5));
     let mut total = Acc::new();
     let mut sizes = vec![];
     for l in langs::ALL {
@@ -127,6 +146,35 @@ pub fn run(tier: Tier) -> i32 {
             });
             total.merge(c);
         }
+        // hinted streams: class words plain, '~' (unrelated to the predecessor) or '!' (not a number part)
+        let c = vocab::cls(l);
+        let base: Vec<String> = vec![c.one.clone(), c.tens.clone(), c.unit.clone(), c.ordinary.clone(), c.hundred.clone(), c.sep.clone(), c.small_ord.clone(), c.conj.clone(), c.linking.clone(), ",".to_string()];
+        let mut deco: Vec<String> = base.clone();
+        deco.extend(base.iter().map(|w| format!("~{w}")));
+        deco.extend(base.iter().map(|w| format!("!{w}")));
+        total.merge(explore::all_sequences2(&deco, kh, |syms, acc| {
+            if syms.iter().any(|s| s.len() > 1 && (s.starts_with('~') || s.starts_with('!'))) {
+                let toks: Vec<HTok> = syms.iter().enumerate().map(|(i, w)| HTok::decorated(i, w)).collect();
+                one_token_list(&ctx, acc, l, &lang, &toks)
+            }
+        }));
+        // texts: words joined by one space, tokenised and annotated by the library itself (whitespace tokens,
+        // the language's own ambiguity flags)
+        let mut tw: Vec<String> = base.clone();
+        let amb: &[&str] = match l {
+            L::En => &["o"],
+            L::Fr => &["neuf", "un", "le"],
+            _ => &[],
+        };
+        for w in amb {
+            if !tw.iter().any(|x| x == w) {
+                tw.insert(0, w.to_string());
+            }
+        }
+        total.merge(explore::all_sequences2(&tw, kt, |syms, acc| {
+            let toks = stream::htoks_of_text(&syms.join(" "), &lang);
+            one_token_list(&ctx, acc, l, &lang, &toks)
+        }));
         // long streams: every pattern of <= 2 class symbols repeated r times, every r up to the bound
         total.merge(explore::all_repetitions(&cls, 2, 2..=rmax, |syms, acc| one_stream(&ctx, acc, l, &lang, syms, false)));
         total.sample(json!({"lang": l.code(), "stream": cls.iter().take(4).collect::<Vec<_>>()}));
@@ -134,7 +182,7 @@ pub fn run(tier: Tier) -> i32 {
     let cov = json!({
         "exhaustive": true,
         "rule": "every token stream of length <= k over the alphabet, through find_numbers and find_numbers_iter, at every threshold of T; every reported occurrence is checked; non-trivial = streams with at least one occurrence at threshold 0",
-        "bounds": {"sigma_full_depth": kf, "sigma_cls_depth": kc, "core10_depth": kdeep, "long_streams": {"pattern_depth": 2, "repetitions_up_to": rmax}, "case_renderings_on_cls": ["lower", "UPPER", "Title"]},
+        "bounds": {"sigma_full_depth": kf, "sigma_cls_depth": kc, "core10_depth": kdeep, "hinted_streams": {"words": 10, "decorations": 3, "depth": kh}, "annotated_texts": {"words": "10 class words + the language's ambiguous words", "depth": kt}, "long_streams": {"pattern_depth": 2, "repetitions_up_to": rmax}, "case_renderings_on_cls": ["lower", "UPPER", "Title"]},
         "thresholds": T.iter().map(|t| thr_name(*t)).collect::<Vec<_>>(),
         "alphabets": sizes,
     });
